@@ -69,6 +69,9 @@ def generate(seed, mode):
         if r < 0.09:
             ops.append({'op': 'newclass', 'bases': [o.randrange(16) for _ in range(o.randint(0, 2))],
                         'xs': xs(2, True), 'v': o.randrange(3), 'k': k})
+        elif r < 0.12:
+            # a new undeclared subclass whose first ever query goes through an instance (or a super proxy of it)
+            ops.append({'op': 'newsubq', 'bases': [o.randrange(16) for _ in range(o.randint(1, 2))], 'k': k})
         elif r < 0.21:
             ops.append({'op': 'newob', 'c': o.randrange(16), 'k': k})
         elif r < 0.38:
@@ -334,10 +337,13 @@ def execute(program, ctx, mode):
             if want_super:
                 check_super(o, ob)
 
-    def check_super(o, ob):
+    def check_super(o, ob, start=0):
         mro = type(ob).__mro__
         m = M.obs[o]
-        for kk, C in enumerate(mro[:-1]):
+        idx = list(range(len(mro) - 1))
+        idx = idx[start % len(idx):] + idx[:start % len(idx)] if idx else idx
+        for kk in idx:
+            C = mro[kk]
             rest = [classes.index(x) for x in mro[kk + 1:] if x in classes]
             slo, shi = set(), set()
             for cc in rest:
@@ -435,6 +441,27 @@ def execute(program, ctx, mode):
                     implementer_only(*[ifs[x] for x in xs])(classes[c])
                     ctx.probe('only-form')
                 ctx.log(step, 'newclass', c, M.classes[c]['bases'], xs, v)
+            elif name == 'newsubq':
+                if not classes:
+                    continue
+                bases = list(dict.fromkeys(b % len(classes) for b in op['bases']))
+                c = mk_class(bases)
+                obs.append(classes[c]())
+                M.obs.append(dict(cls=c, must=[], may=[]))
+                o_new = len(obs) - 1
+                ctx.probe('first-query-through-instance')
+                ctx.log(step, 'newsubq', c, M.classes[c]['bases'], o_new)
+                # nothing has asked implementedBy(new class) yet
+                if want_super:
+                    # start at a PRNG-chosen class of the MRO: the proxy for a class in the middle is asked before
+                    # anything computed the new class's own specification
+                    check_super(o_new, obs[o_new], start=1 + (k % 3))
+                else:
+                    lo, hi = M.L(c), M.U(c)
+                    got = as_set(providedBy(obs[o_new]))
+                    if not (lo <= got <= hi):
+                        ctx.violation('C01', 'providedBy-bounds', 'C01|providedBy(instance)|%s' % ('missing-class' if lo - got else 'extra'),
+                                      {'ob': o_new, 'class': c, 'lo': sorted(lo), 'got': sorted(got), 'hi': sorted(hi)})
             elif name == 'newob':
                 if not classes:
                     continue
